@@ -116,7 +116,7 @@ def run_harnesses(harnesses, timeout_s=600, jobs=8, extra_args=()):
     try:
         d = json.load(open(jsonp))
         for c in d.get("cbmc", []):
-            st = c.get("cbmc_stats", {})
+            st = c.get("cbmc_stats") or {}
             h = c.get("harness_id")
             if h in res:
                 res[h]["solver_s"] = st.get("runtime_decision_procedure_s", 0.0)
